@@ -7,12 +7,13 @@ from decaylib import F, Gen, U53, ancestors_sum, is_finite, within
 from oracle import DatasetView, LeanOracle, amaku_solution, eval_adaptive
 
 NEEDS_DATASET = True
-TARGETS = ["RdVerif.Props.C01", "RdVerif.Props.C04"]
-THEOREMS = ["RdVerif.C01.C01_exact", "RdVerif.C01.C01_closed_form", "RdVerif.C01.C01_stable", "RdVerif.C01.C01_oracle_factor", "RdVerif.C04.exact_inverses", "RdVerif.C04.exact_diagonalises", "RdVerif.C04.pattern_is_ancestors", "RdVerif.C04.float_aggregate_bound"]
+TARGETS = ["RdVerif.Props.C01", "RdVerif.Props.C04", "RdVerif.Props.C01Oracle", "RdVerif.Props.C04Error"]
+THEOREMS = ["RdVerif.C01.C01_exact", "RdVerif.C01.C01_closed_form", "RdVerif.C01.C01_stable", "RdVerif.C01.C01_oracle_factor", "RdVerif.C01.C01_oracle_sound", "RdVerif.C01.C01_oracle_cached", "RdVerif.C01.C01_ln2_certified", "RdVerif.C04.float_data_contribution", "RdVerif.C04.exact_inverses", "RdVerif.C04.exact_diagonalises", "RdVerif.C04.pattern_is_ancestors", "RdVerif.C04.float_aggregate_bound"]
 PARTIAL = {
-    "C01_error_bound_partial": "the 1e-11 forward-error bound of the double-precision evaluation is not a Lean theorem; it is "
-                               "checked for every generated input against the verified interval oracle (decayFactor_sound, "
-                               "C01_closed_form); the data part of the bound is the kernel-checked float_aggregate_bound",
+    "C01_error_bound_partial": "the rounding part of the 1e-11 forward-error bound of the double-precision evaluation is not a Lean "
+                               "theorem: it is checked for every generated input against the oracle, which is PROVED to enclose the "
+                               "exact solution (C01_oracle_sound); the data part of the bound IS a theorem (float_data_contribution: "
+                               "<= 5e-12 of the initial atoms, all t >= 0, all N(0) >= 0)",
     "C01_nuclide_set_partial": "nuclide set = descendants is checked per input against the model's decayIndices (float-C pattern, "
                                "kernel-checked equal to the ancestor pattern) and an independent graph closure",
 }
